@@ -24,6 +24,12 @@ Theorem C27_canonical : forall s o1 o2,
 Proof. exact canonical. Qed.
 Print Assumptions C27_canonical.
 
+(* Model fact tied by the raw-level correspondence (function types built from array-typed arguments,
+   array types then freed and their addresses reused): the children of a type — hence its key — are the
+   objects the type itself references and keeps alive; for a function type these are the result and the
+   DECAYED arguments (array -> its pointer type), see hstep/HNew.  That is what makes C27_entries_sound
+   and C27_new_returns provable: a key never holds the address of an object the type does not keep alive. *)
+
 (* building a type returns an object with EXACTLY the requested description — never another
    type that happens to sit behind a stale key or a reused address — namely the live one if there
    is one, else a brand-new object *)
@@ -80,7 +86,11 @@ Example C27_example_high_level :
   run_case [HNew 1 (0, 7%Z) []; HNew 2 (2, 0%Z) [1]; HNew 3 (2, 0%Z) [1]; HNew 4 (3, 5%Z) [2];
             HDrop 2; HDrop 3; HNew 5 (2, 0%Z) [1]; HDrop 4; HDrop 5; HNew 6 (2, 0%Z) [1];
             HNew 7 (5, 1%Z) []; HNew 8 (2, 0%Z) [7]; HComplete 7 [8]; HDrop 7; HDrop 8; HCollect;
-            HNew 9 (0, 7%Z) []; HDropRebuild 6 10; HNew 11 (2, 0%Z) [1]]%N
+            HNew 9 (0, 7%Z) []; HDropRebuild 6 10; HNew 11 (2, 0%Z) [1];
+            (* a function taking int[5], int[] or a pointer to int is one type; the arrays are not kept alive *)
+            HNew 12 (3, 5%Z) [11]; HNew 13 (3, (-1)%Z) [11]; HNew 14 (4, 0%Z) [1; 12]; HNew 15 (4, 0%Z) [1; 13];
+            HNew 16 (4, 0%Z) [1; 11]; HDrop 12; HDrop 13; HDrop 14; HDrop 15; HDrop 16; HDrop 10; HDrop 11]%N
   = ([HFresh; HFresh; HSame 2; HFresh; HOk; HOk; HFresh; HOk; HOk; HFresh;
-      HFresh; HFresh; HOk; HOk; HOk; HOk; HSame 1; HFresh; HSame 10]%N, 2%N).
+      HFresh; HFresh; HOk; HOk; HOk; HOk; HSame 1; HFresh; HSame 10;
+      HFresh; HFresh; HFresh; HSame 14; HSame 14; HOk; HOk; HOk; HOk; HOk; HOk; HOk]%N, 1%N).
 Proof. vm_compute. reflexivity. Qed.
